@@ -50,6 +50,19 @@ def run(chk, scratch):
         chk.add_tlc("%s sensitivity (%s must deadlock)" % (module, cfg), r)
         if r.violated != want:
             raise vlib.Inconclusive("sensitivity self-test failed: %s reported %s" % (cfg, r.violated))
+    # 1b. the cancel store's safety for executions of ANY length: an inductive invariant discharged by Apalache (initiation, consecution,
+    #     invariant => properties), 4 registrants x 3 cancellers; sensitivity: the invariant without "each registration once" is not inductive
+    cinit = ["--cinit=ConstInit"]
+    for what, args, want in (("initiation", ["--init=Init", "--inv=IndInv", "--length=0"], "NoError"),
+                             ("consecution", ["--init=IndInit", "--inv=IndInv", "--length=1"], "NoError"),
+                             ("invariant implies the properties", ["--init=IndInit", "--inv=Safety", "--length=0"], "NoError"),
+                             ("weakened invariant is not inductive", ["--init=IndInitWeak", "--inv=IndInvWeak", "--length=1"], "Error")):
+        got = vlib.run_apalache(scratch, [SPEC], "CancelStoreInd", cinit + args, timeout=600)
+        if got != want:
+            if want == "NoError":
+                raise vlib.Inconclusive("the inductive invariant of CancelStoreInd.tla fails at %s: the specification or the invariant is wrong" % what)
+            raise vlib.Inconclusive("sensitivity self-test failed: CancelStoreInd %s gave %s" % (what, got))
+    chk.cov["apalache_inductive_invariant"] = "CancelStoreInd.tla: initiation, consecution, IndInv => MutexOK /\\ RegisteredBeforeCancelIsInvoked /\\ NoLostRegistration (4 registrants, 3 cancellers, any length)"
     # 2. every terminated behaviour of the runner models replayed with scripted instants
     b = common.emit_behaviours(chk, scratch, SPEC, "TimeoutRunner", "TimeoutRunner_emit.cfg", "emit TimeoutRunner", fast="tiny")
     chk.sample({"timeout_runner_behaviour": b[0]})
